@@ -1611,6 +1611,13 @@ class Memoer(Tymee):
             logger.error("Invalid Memoer gram from %s.\n %s.", src, ex)
             return True  # did receive data so can try again now
 
+        if mid in self.vids and vid != self.vids[mid]:  # not same signer as memo's
+            # verified but for other signer than that of first gram of memo so drop
+            logger.error("Invalid Memoer gram from %s.\n Signer %s of gram does not"
+                         " match signer %s of memo %s.", src, vid,
+                         self.vids[mid], mid)
+            return True  # did receive data so can try again now
+
         if mid not in self.rxgs:
             self.rxgs[mid] = dict()
 
